@@ -6,7 +6,7 @@ T = {
  'C01': ('proof', 'algebraic normal forms (ast dataflow + polynomial identity over Q)',
          'Lamina.rebuild / Laminate.calc_constitutive_matrix / read_stack / read_laminaprop are lowered to rational normal forms and compared with tensor rotation and the through-thickness integrals; corollaries (symmetry, offset law, B=0, order independence) follow mathematically.',
          'numpy broadcasting of += on 5x5 arrays; IEEE arithmetic; sin/cos of the same angle satisfy c^2+s^2=1', '3/C01'),
- 'C02': ('proof', 'kernel lowering to polynomial normal forms over semantic integral atoms; energy-Hessian oracle',
+ 'C02': ('proof', 'kernel lowering to polynomial normal forms over semantic integral atoms; energy-Hessian oracle; abstract interpretation of make_symmetric over an elementwise segment domain (vcheck/coosem.py)',
          'every emitted block of fk0/fk0y1y2 (plate, plate_w, cpanel, kpanel) is proved equal, as a polynomial identity valid for all m, n, flags, laminates and geometries, to the Hessian of the Donnell strain energy; index maps, triangle guard, role-swap symmetry, section/sub-interval frames, Python dispatch and symmetrisation are structural rules.',
          'C10 (integral tables exact), C01 (ABD block symmetry), faithful Cython/C arithmetic, no floating-point model', '3/C02'),
  'C03': ('proof', 'polynomial normal forms; homomorphism integral-atom -> point-atom; strain-table accumulators',
@@ -45,7 +45,7 @@ T = {
  'C14': ('proof', 'sibling polynomial relations between extracted kernels (substitution, homomorphism, permutation, weights)',
          'kpanel[alpha=0]==cpanel, cpanel[1/r=0]==plate, plate_w==(w,w) of plate, numeric@0==analytic integrand, x<->y exchange automorphism, similarity weights; eigenvalue equality as numbers is NOT decided.',
          'C10', '3/C14'),
- 'C16': ('proof', 'symbolic evaluation of the shell kernels in a polynomial ring with reciprocal and sign atoms and a Fourier normal form: exact strain-energy Hessian built from the package\'s own cfstrain functions (R16.7), cone kernels at zero angle telescoped over the sections against the cylinder kernels (R16.4), isotropic substitution (R16.2); homogeneity degree analysis (R16.1); loop-scope and stale-iteration-read rules (R16.5); call binding / CFG rules of the orchestration (R16.3)',
+ 'C16': ('proof', 'symbolic evaluation of the shell kernels in a polynomial ring with reciprocal and sign atoms and a Fourier normal form: exact strain-energy Hessian built from the package\'s own cfstrain functions (R16.7), cone kernels at zero angle telescoped over the sections against the cylinder kernels (R16.4), isotropic substitution (R16.2); homogeneity degree analysis (R16.1); loop-scope and stale-iteration-read rules (R16.5); call binding / CFG rules of the orchestration (R16.3); path analysis of ConeCyl._rebuild over the truthiness of (r1, r2, L, H): derived radius refreshed on every rebuild (R16.9)',
          'for the eight classical models k0 (cone and cylinder kernels) is proved equal, entry by entry and case by case, to the second derivative of the energy of the package\'s own linear strain field with the section radius frozen as the kernels freeze it (hence symmetric PSD); cone kernels at alpha = 0 proved equal to the cylinder kernels for k0 and kG0 of all 19 built linear modules (known finding F-C16-4: five FSDT modules differ); iso short-cuts == general models; kG linear in (Fc,P,T) and the load split adds up. NOT decided: PSD of the first-order-shear models; the limit of the section quadrature.',
          'source-level proof; the built .so files are not examined; amplitude 2 is always prescribed and left out', '3/C16'),
  'C17': ('proof', 'symbolic differentiation of the internal-force integrand (state scalars as linear forms, chain rule with linear-form matching) against the three tangent integrands read by walking the (row, col) writer and the value writer in lock step (R17.5); order analysis (R17.6); call-binding agreement, composition rule, prange effect analysis (R17.1-R17.4)',
@@ -53,10 +53,10 @@ T = {
          'integrand-level identity; amplitude 2 (always prescribed) left out', '3/C17'),
  'C18': ('other', 'linear-form agreement fg<->fuvw, degree-in-inc analysis, Rat identities for geometry, inverse bookkeeping',
          'named clauses only (see DESIGN.md C18).', '', '3/C18'),
- 'C19': ('proof', 'polynomial normal forms modulo integration by parts; mirror parity; Rat identities; call binding',
+ 'C19': ('proof', 'polynomial normal forms modulo integration by parts; mirror parity; Rat identities; call binding; abstract interpretation of make_skew_symmetric over an elementwise segment domain (vcheck/coosem.py)',
          'fkAx/fkAy/fcA proved equal to the piston-theory forms; parity of each term vs the mirror applied (known finding F-C19-1); Mach formulas as identities; call binding and coefficient forwarding (known findings F-C19-2/3).',
          'C10; precondition w restrained on flow edges', '3/C19'),
- 'C20': ('other', 'typestate derive-before-read over CFG + call graph; effect analysis on caller inputs; dominance of accumulator resets; prange disjointness',
+ 'C20': ('other', 'typestate derive-before-read over CFG + call graph; effect analysis on caller inputs; dominance of accumulator resets; prange disjointness; path analysis of ConeCyl._rebuild (derived radius refreshed on every rebuild, R20.8)',
          'derive-before-read of lazily derived attributes for every public entry point; caller inputs not mutated; idempotent in-place scalings; attribute accumulators reset in the same call; thread-independence structure.',
          'bit-identical floating point sums across thread counts NOT decided', '3/C20'),
 }
